@@ -13,6 +13,7 @@ import tempfile
 import time
 
 from .. import contracts, gen, pwork
+from .. import core
 from ..core import Result, split, guarded, STEPS
 from .. import parserlab as lab
 
@@ -98,6 +99,18 @@ def observe(data, res: Result, label, via="bytes", path=None):
                       dict(wit, message=o.exc[1]))
     elif o.kind == "hang":
         res.violation({"kind": "hang"}, dict(wit, detail=o.exc, steps=o.steps))
+    elif o.kind == "slow":
+        # two consecutive calls already ran into the per-call alarm (parserlab); a third
+        # confirmation makes it a verdict: no linear-time behaviour needs 3 x 8 s for this
+        o3 = lab.parse(data if via != "str" else data.decode("utf-8", "replace"))
+        if o3.kind == "slow":
+            res.violation({"kind": "cpu-blowup", "size-class": "<=%d" % (
+                1 << max(6, len(data).bit_length()))},
+                dict(wit, detail="no verdict within %.0f s in 4 consecutive attempts "
+                     "(%d line events only: time is spent inside one statement)" % (
+                         core.ALARM_SECONDS, o.steps)))
+            raise StopShard()
+        res.inconclusive.append("slow parse not reproducible for %r" % data[:60])
     for name, detail in contracts.take_fired():
         res.violation({"kind": "contract", "which": name,
                        "detail": detail.split(" ")[0]}, dict(wit, detail=detail))
@@ -109,7 +122,19 @@ def observe(data, res: Result, label, via="bytes", path=None):
     return o
 
 
+class StopShard(Exception):
+    """A confirmed blow-up decides the shard; every further offending input would only
+    burn the budget."""
+
+
 def run_shard(tier, shard, res: Result):
+    try:
+        _run_shard(tier, shard, res)
+    except StopShard:
+        res.count("shards-stopped-after-confirmed-blowup")
+
+
+def _run_shard(tier, shard, res: Result):
     contracts.install_parser_contracts()
     res.observe("contract-engine", "icontract" if contracts.HAVE_ICONTRACT else "builtin")
     w = shard["w"]
